@@ -23,7 +23,7 @@
    The remaining side conditions are necessary: `initial` naming a history pseudo-state (F35), a history default target that
    is itself a history pseudo-state (F36) or lies outside the history state's parent (F37) each make the code leave an
    illegal configuration - kernel-checked witnesses below, recorded findings. *)
-From XSM Require Import Model.Macro Model.Snap Proofs.LegalP Proofs.ExecP Proofs.FaultP Proofs.StepP Proofs.DescentP Proofs.EffectP Proofs.PreserveP Proofs.InvariantP Proofs.SelectP Proofs.HistoryP Proofs.InvariantHP Proofs.SortP Proofs.IdP Proofs.GeomBridge Model.TreeLib Gen.GenTree Gen.GenGeom.
+From XSM Require Import Model.Macro Model.Snap Proofs.LegalP Proofs.ExecP Proofs.FaultP Proofs.StepP Proofs.DescentP Proofs.EffectP Proofs.PreserveP Proofs.InvariantP Proofs.SelectP Proofs.HistoryP Proofs.InvariantHP Proofs.SortP Proofs.IdP Proofs.GeomBridge Proofs.SourceGeomP Model.TreeLib Gen.GenTree Gen.GenGeom.
 From Coq Require Import Permutation.
 
 Theorem C01_legal_is_the_definition : forall m C, legal m C = true <-> Legal m C.
@@ -211,6 +211,37 @@ Theorem C01_ancestors_are_the_source : forall m s, wf m = true -> s < size m -> 
 Proof. exact get_ancestors_bridge. Qed.
 Print Assumptions C01_ancestors_are_the_source.
 
+(* ... composed the way _execute_transition / _process_single_transition compose them: `exec_external_src` is one external
+   transition executed with the geometry THE SOURCE computes (domain, exit set, entry path, expansion of a history target,
+   combined entry path of the restored states - all five from Gen/GenGeom.v).  Out of a legal configuration it is the
+   model's `exec_external`, so the preservation theorems above hold of the transition as the source computes it: *)
+Theorem C01_transition_is_the_source : forall m, ancestry_side_ok m = true -> forall eng pr t tgt ev s0,
+  Legal m (s_cfg s0) -> In (t_src t) (s_cfg s0) -> tgt < size m ->
+  exec_external_src eng pr m t tgt ev s0 = exec_external eng pr m t tgt ev s0.
+Proof. exact exec_external_src_eq. Qed.
+Print Assumptions C01_transition_is_the_source.
+
+Theorem C01_source_transition_preserves_legality : forall m, ancestry_side_ok m = true -> good_initials m = true ->
+  forall eng pr t tgt ev s0 s1,
+  Legal m (s_cfg s0) -> In (t_src t) (s_cfg s0) -> tgt < size m -> tgt <> 0 -> is_history m tgt = false ->
+  exec_external_src eng pr m t tgt ev s0 = (s1, None) -> Legal m (s_cfg s1).
+Proof. exact source_transition_preserves_legal. Qed.
+Print Assumptions C01_source_transition_preserves_legality.
+
+Theorem C01_source_history_transition_preserves_legality : forall m, ancestry_side_ok m = true -> good_initials m = true ->
+  forall eng pr t tgt ev s0 s1,
+  Legal m (s_cfg s0) -> HistOK m (s_hist s0) -> In (t_src t) (s_cfg s0) ->
+  tgt < size m -> is_history m tgt = true -> hist_static_ok m tgt ->
+  exec_external_src eng pr m t tgt ev s0 = (s1, None) -> Legal m (s_cfg s1).
+Proof. exact source_history_transition_legal. Qed.
+Print Assumptions C01_source_history_transition_preserves_legality.
+
+Theorem C01_source_root_transition_restarts : forall m, ancestry_side_ok m = true -> good_initials m = true ->
+  forall eng pr t ev s0 s1, Legal m (s_cfg s0) -> In (t_src t) (s_cfg s0) ->
+  exec_external_src eng pr m t 0 ev s0 = (s1, None) -> Legal m (s_cfg s1).
+Proof. exact source_root_transition_legal. Qed.
+Print Assumptions C01_source_root_transition_restarts.
+
 (* steps that keep the configuration *)
 Theorem C01_unhandled_keeps : forall eng pr m ev s,
   select m (s_cfg s) (s_ctx s) ev = Some [] -> process_event eng pr m ev s = (s, None).
@@ -298,6 +329,14 @@ Example C01_translated_geometry_computes :
   GenGeom.resolve_history_target f34 (s_hist s1) 1 = [6; 3] /\
   GenGeom.get_path_to_state f34 3 (Some 0) = [2; 3] /\ GenGeom.get_ancestors f34 6 = [6; 5; 0] /\
   GenGeom.find_transition_domain f34 3 4 = Some 2 /\ GenGeom.find_transition_domain f34 3 0 = None.
+Proof. vm_compute. repeat split; reflexivity. Qed.
+Example C01_source_transition_computes :
+  let s0 := fst (sync_start f34 (st_init [])) in
+  let s1 := fst (sync_send f34 (Build_event "GO" EPlain 0) s0) in
+  let t := Build_trans 2 4 "BACK" (TState 1) None [] false false in
+  legal f34 (s_cfg s1) = true /\ mem 4 (s_cfg s1) = true /\
+  s_cfg (fst (exec_external_src Sync true f34 t 1 (Build_event "BACK" EPlain 0) s1)) = [0; 5; 6; 2; 3] /\
+  snd (exec_external_src Sync true f34 t 1 (Build_event "BACK" EPlain 0) s1) = None.
 Proof. vm_compute. repeat split; reflexivity. Qed.
 
 (* THE SIDE CONDITIONS ARE NECESSARY - three more kernel-checked witnesses on which the code at HEAD (and the model)
